@@ -496,6 +496,18 @@ func (s *Sim) execReload(op Op) {
 	if err == nil {
 		s.reloadsOK++
 		if op.Conf != nil {
+			// queues that leave the configuration keep existing (draining) with what they had
+			old := s.conf
+			for _, path := range old.allQueues() {
+				if op.Conf.Find(path) == nil {
+					g := old.Find(path).clone()
+					g.Children = nil
+					s.ghosts[path] = g
+				}
+			}
+			for _, path := range op.Conf.allQueues() {
+				delete(s.ghosts, path)
+			}
 			s.conf = op.Conf.Clone()
 		}
 		s.probe("reload_accepted")
@@ -545,6 +557,11 @@ func (c *ConfSpec) effProps(path string) map[string]string {
 
 func (s *Sim) oracleC16(op Op, evs []SIEvent) {
 	p := s.post
+	for _, path := range sortedKeys(s.ghosts) {
+		if p.Queues[path] == nil {
+			delete(s.ghosts, path)
+		}
+	}
 	if op.Kind == "reload" && s.pre != nil {
 		lr := s.lastReload
 		if lr.validatorOK && !lr.accepted {
